@@ -13,6 +13,8 @@
      Grid        itertools.product(z angles, y angles, x angles): x runs fastest
      RotOf       from_euler_xyz_coords(angles, "zyx"): Rz(az) o Ry(ay) o Rx(ax), each elementary rotation
                  right-handed for the handedness of Zyx (z = y x x), i.e. its rotation vector is angle * e_axis
+   A set given as Rotation OBJECT(s) is the sequence of those rotations as it stands; one object that is not stacked is a set of
+   one rotation (the harness gives the one-candidate requests in that form as well).
    Angles are integers (degrees); on requests whose steps are multiples of 90 the candidates are exact
    signed permutation matrices (Zyx.Rot24M) and the whole candidate list is decided exactly.  *)
 EXTENDS Integers, Sequences, FiniteSets, TLC, Json, Zyx
